@@ -158,6 +158,13 @@ pub fn corr(ctx: &mut Ctx) {
         let delay = *rng.choose(&[0u64, 0, 100, 800]);
         let cases: Vec<Case> = (0..n_images)
             .map(|_| {
+                // some of the images are animated: their frames are recompressed in parallel inside the call
+                if rng.chance(1, 5) {
+                    let (mut c, _) = crate::corr_eval::apng_case_with(&mut rng, false);
+                    c.opts.force = true;
+                    if let Err(_) = c.opts.deflate { c.opts.deflate = Ok(6); }
+                    return c;
+                }
                 let mut c = gen_case(&mut rng, Profile::Any, false, 8);
                 if rng.chance(1, 3) { c.opts.fast_evaluation = false; }
                 if let Err(_) = c.opts.deflate { c.opts.deflate = Ok(6); }
